@@ -31,7 +31,7 @@ theorem gen_arith_sites_counted :
 /-- the inventory is not empty, and some sites are covered by model theorems (non-vacuity) -/
 example : 300 < siteCount ∧ 100 < (siteClasses.lookup "model").getD 0 ∧ 20 ≤ modelRefs.length := by decide
 
-/-- the union counter (the site the review found missing) is in the inventory, tied to the model definition that now has the
+/-- the union counter (the site the review found missing) is in the inventory, tied to the model definition that has the
 capacity check -/
 example : (modelRefs.lookup "serializeVariant@push_no_panic").isSome = true := by decide
 
